@@ -1,12 +1,289 @@
 import PV.C11.Model
 import PV.C11.Spec
+import PV.C11.Fragment
+import PV.C11.Lemmas
 import PV.Gen.C11Tables
 /-
-  C11 — property theorems (provisional: table part).
+  C11 — property theorems.  "Unparsing an expression and parsing it again gives the same expression."
+
+  Reading guide (helper lemmas are in `PV/C11/Lemmas.lean`):
+
+  * model  `unparse p e level : List Out`, `display p e = unparse p e Prec.TEST`  (`ast/src/unparse.rs`),
+           `toks : List Out → List Tok` its token sequence, `displayText` its text;
+  * spec   `parseRef fuel ts : Option (Expr × List Tok)`  (reference parser written from python.lalrpop),
+           `needsParens slot kind` (which children the grammar cannot derive bare), `WF e`;
+  * tables `kindPrec` / `slotLevel` / `modelParens` (model), `Gen.parenTable` (extracted from the real code).
+
+  1. `gen_parenTable_eq`      real unparser's parenthesisation decisions = the model's, all 1831 admissible pairs
+  2. `unparse_shape`          for EVERY expression the model parenthesises exactly by `level > kindPrec`
+  3. `prec_table_ok`          wherever the grammar needs parentheses the model writes them, except six pairs
+     `prec_table_exact`       … and the model's decision is exactly: needed, or one of five harmless families
+     `dict_unpack_defect`     the six pairs: needed, not written
+  4. `parse_unparse_partial`  round trip for every expression of the operator core, `unparse_fixpoint`
+  5. `parse_unparse_fails`    the full statement is false for the code as it is; witnesses for each finding
 -/
 namespace PV.C11
 open PV.Expr
 
+/-! ## 1. the behaviourally extracted table -/
+
+/-- The parenthesisation decisions extracted from the REAL unparser (one rendered expression per
+    admissible (slot, child kind) pair, regenerated on every run) coincide with the model's. -/
 theorem gen_parenTable_eq : Gen.parenTable = parenTable := by decide +kernel
+
+example : parenTable.length = 1831 := by decide +kernel
+
+/-! ## 2. the model is built from the table, for every expression -/
+
+/-- Whether the model puts a node in parentheses depends only on the level it is rendered at and on
+    `kindPrec` of its kind: at level `lvl` the output is the output at the node's own level, wrapped iff
+    `lvl > prec`; kinds without a level are rendered identically at every level. -/
+theorem unparse_shape (p : Nat → Bool) (e : Expr) (lvl : Nat) :
+    (∀ prec, kindPrec (kindOf e) = some prec →
+      unparse p e lvl = groupIf (decide (lvl > prec)) (unparse p e prec)) ∧
+    (kindPrec (kindOf e) = none → ∀ lvl', unparse p e lvl = unparse p e lvl') :=
+  ⟨fun prec h => unparse_group p e lvl prec h, fun h lvl' => unparse_nogroup p e lvl lvl' h⟩
+
+example (p : Nat → Bool) : toks (unparse p (.binOp (.name [97]) .add (.name [98])) Prec.TERM) =
+    [.op .lpar, .name [97], .op .plus, .name [98], .op .rpar] := by
+  simp [unparse, groupIf, binOpPrec, Prec.TERM, Prec.ARITH, binOpTok, op]
+
+/-! ## 3. model decision vs grammar requirement, over all (slot, kind) pairs -/
+
+/-- the kinds the grammar cannot derive after `**` in a dict display without parentheses, but which the
+    unparser writes bare there -/
+def dictUnpackDefects : List Kind :=
+  [.lambda, .ifExp, .boolOp .and, .boolOp .or, .unary .not, .compare]
+
+/-- harmless extra parentheses the unparser writes although the grammar would not need them -/
+def overParen (s : Slot) (k : Kind) : Bool :=
+  -- a tuple at the top, after `yield`, in an f-string field
+  (k == .tuple && (s == .top || s == .yieldValue || s == .fstringField)) ||
+  -- `a ** -b`
+  (s == .binRight .pow && (k == .unary .invert || k == .unary .uAdd || k == .unary .uSub)) ||
+  -- `[(x := 1)]`, `f((x := 1))`
+  (k == .namedExpr && slotAllowsBareNamed s && s != .subSlice) ||
+  -- `(x := (a + b))`: the value of a named expression is rendered at atom level
+  (s == .namedValue && k != .atom && k != .tuple && k != .namedExpr && k != .starred && k != .slice) ||
+  -- `f'{(a if b else c)}'`
+  (s == .fstringField && k == .ifExp)
+
+def tableOkB : Bool :=
+  allSlots.all fun s => allKinds.all fun k =>
+    !(admissible s k && needsParens s k) || modelParens s k ||
+      (s == .dictUnpack && dictUnpackDefects.contains k)
+
+def tableExactB : Bool :=
+  allSlots.all fun s => allKinds.all fun k =>
+    !admissible s k ||
+      (modelParens s k ==
+        ((needsParens s k || overParen s k) && !(s == .dictUnpack && dictUnpackDefects.contains k)))
+
+theorem tableOkB_true : tableOkB = true := by decide +kernel
+theorem tableExactB_true : tableExactB = true := by decide +kernel
+
+/-- Soundness of the parenthesisation: for every child position `s` and every kind of child `k` that can
+    stand there, if the grammar cannot derive the child bare, the unparser parenthesises it —
+    except for the six `dictUnpack` pairs. -/
+theorem prec_table_ok (s : Slot) (k : Kind) (ha : admissible s k = true) (hn : needsParens s k = true) :
+    modelParens s k = true ∨ (s = .dictUnpack ∧ k ∈ dictUnpackDefects) := by
+  have h := tableOkB_true
+  simp only [tableOkB, List.all_eq_true] at h
+  have := h s (allSlots_complete s) k (allKinds_complete k)
+  simp only [ha, hn, Bool.and_self, Bool.not_true, Bool.false_or, Bool.or_eq_true, Bool.and_eq_true,
+    beq_iff_eq, List.contains_iff_mem] at this
+  exact this
+
+/-- The complete table: the unparser parenthesises exactly when the grammar needs it or in one of the five
+    harmless `overParen` families — and never in the six defect pairs. -/
+theorem prec_table_exact (s : Slot) (k : Kind) (ha : admissible s k = true) :
+    modelParens s k =
+      ((needsParens s k || overParen s k) && !(s == .dictUnpack && dictUnpackDefects.contains k)) := by
+  have h := tableExactB_true
+  simp only [tableExactB, List.all_eq_true] at h
+  have := h s (allSlots_complete s) k (allKinds_complete k)
+  simpa [ha] using this
+
+/-- The defect, as a statement about the tables: after `**` in a dict display the grammar needs
+    parentheses around these six kinds and the unparser writes none. -/
+theorem dict_unpack_defect : ∀ k ∈ dictUnpackDefects,
+    admissible .dictUnpack k = true ∧ needsParens .dictUnpack k = true ∧ modelParens .dictUnpack k = false := by
+  decide
+
+example : needsParens (.binLeft .pow) (.unary .uSub) = true ∧ modelParens (.binLeft .pow) (.unary .uSub) = true := by
+  decide
+
+/-! ## 4. the round trip -/
+
+/-- The property for the model, full strength: every tree the parser can produce is read back from the
+    tokens of its rendering, by every sufficiently large fuel, with nothing left over. -/
+def parse_unparse_full : Prop :=
+  ∀ (p : Nat → Bool) (e : Expr), WF e →
+    ∃ n, ∀ fuel, n ≤ fuel → parseRef fuel (toks (display p e)) = some (eraseCtx e, [])
+
+/-- **Round trip on the operator core.**  For every expression built from names, numeric / `None` /
+    `True` / `False` / `...` constants, `and`/`or` chains, the four unary and thirteen binary operators,
+    comparison chains and conditional expressions — nested arbitrarily, of any size — the reference parser
+    reads the token sequence of the unparser model's output back as the same tree and consumes all of it.
+    (`p` is the printable-character table, irrelevant here.) -/
+theorem parse_unparse_partial (p : Nat → Bool) (e : Expr) (h : InFragment e) :
+    ∃ n, ∀ fuel, n ≤ fuel → parseRef fuel (toks (display p e)) = some (eraseCtx e, []) := by
+  have := (rt_all p e h).1 1 [] (Nat.le_refl _) (by omega) (Stop.nil _)
+  rw [parseAt_1, List.append_nil] at this
+  exact this
+
+/-- the same statement with an operand context: at every level, followed by any input that does not
+    continue the expression -/
+theorem parse_unparse_partial_at (p : Nat → Bool) (e : Expr) (h : InFragment e) (lvl : Nat)
+    (rest : List Tok) (h1 : 1 ≤ lvl) (h15 : lvl ≤ 15) (hs : Stop lvl rest) :
+    ∃ n, ∀ fuel, n ≤ fuel → parseAt lvl fuel (toks (unparse p e lvl) ++ rest) = some (e, rest) :=
+  (rt_all p e h).1 lvl rest h1 h15 hs
+
+/-- `-2 ** -x < (a if b else c) or not y` — in the fragment, with right-associative `**`, unary/power
+    interplay, a parenthesised conditional and a boolean chain -/
+def sampleExpr : Expr :=
+  .boolOp .or
+    [.compare (.unaryOp .uSub (.binOp (.const (.int 2)) .pow (.unaryOp .uSub (.name [120])))) [.lt]
+       [.ifExp (.name [98]) (.name [97]) (.name [99])],
+     .unaryOp .not (.name [121])]
+
+example : InFragment sampleExpr := by decide
+example : WF sampleExpr := by decide
+example : parseRef 64 (toks (display (fun _ => true) sampleExpr)) = some (sampleExpr, []) := by rfl
+
+mutual
+theorem inFrag_wf_aux : (e : Expr) → inFrag e = true → ∀ pos, wf pos e = true
+  | .name _, _, _ => by simp [wf]
+  | .const _, _, _ => by simp [wf]
+  | .boolOp o vs, h, pos => by
+    simp [inFrag] at h
+    simp [wf, h.1, inFragList_wf_aux vs h.2]
+  | .unaryOp o x, h, pos => by simp [inFrag] at h; simp [wf, inFrag_wf_aux x h]
+  | .binOp l o r, h, pos => by simp [inFrag] at h; simp [wf, inFrag_wf_aux l h.1, inFrag_wf_aux r h.2]
+  | .compare l ops cs, h, pos => by
+    simp [inFrag] at h
+    simp [wf, inFrag_wf_aux l h.1.1.1, h.1.1.2, h.1.2, inFragList_wf_aux cs h.2]
+  | .ifExp t b o, h, pos => by
+    simp [inFrag] at h
+    simp [wf, inFrag_wf_aux t h.1.1, inFrag_wf_aux b h.1.2, inFrag_wf_aux o h.2]
+  | .namedExpr .., h, _ | .lambda .., h, _ | .dict .., h, _ | .set .., h, _ | .listComp .., h, _
+  | .setComp .., h, _ | .dictComp .., h, _ | .genExp .., h, _ | .await .., h, _ | .yield .., h, _
+  | .yieldFrom .., h, _ | .call .., h, _ | .formattedValue .., h, _ | .joinedStr .., h, _
+  | .attribute .., h, _ | .subscript .., h, _ | .starred .., h, _ | .list .., h, _ | .tuple .., h, _
+  | .slice .., h, _ => by simp [inFrag] at h
+theorem inFragList_wf_aux : (es : List Expr) → inFragList es = true → ∀ pos, wfList pos es = true
+  | [], _, _ => by simp [wfList]
+  | e :: es, h, pos => by
+    simp [inFragList] at h
+    simp [wfList, inFrag_wf_aux e h.1, inFragList_wf_aux es h.2]
+end
+
+/-- every expression of the fragment is a tree the parser can produce: `parse_unparse_partial` is an
+    instance of `parse_unparse_full` -/
+theorem inFrag_wf (e : Expr) (h : InFragment e) : WF e := inFrag_wf_aux e h .elem
+
+/-- **Rendering is a fixed point** (corollary): on the fragment, rendering the re-parsed tree gives the
+    same text. -/
+theorem unparse_fixpoint (p : Nat → Bool) (e : Expr) (h : InFragment e) :
+    ∃ n, ∀ fuel, n ≤ fuel → ∃ e', parseRef fuel (toks (display p e)) = some (e', []) ∧
+      displayText p e' = displayText p e := by
+  obtain ⟨n, hn⟩ := parse_unparse_partial p e h
+  exact ⟨n, fun fuel hf => ⟨e, hn fuel hf, rfl⟩⟩
+
+/-! ## 5. where the unchanged code is wrong -/
+
+/-- `{**(a or b)}` -/
+def dictWitness : Expr := .dict [.mk none (.boolOp .or [.name [97], .name [98]])]
+
+/-- `{`, `**`, `a`, `or`, `b`, `}` -/
+def dictWitnessToks : List Tok :=
+  [.op .lbrace, .op .dstar, .name [97], .kw .or, .name [98], .op .rbrace]
+
+theorem dictWitness_toks (p : Nat → Bool) : toks (display p dictWitness) = dictWitnessToks := by
+  simp [display, dictWitness, dictWitnessToks, unparse, unparseDictItems, unparseBool, toks, groupIf,
+    delim, boolOpPrec, boolOpKw, Prec.TEST, Prec.OR, op, kw]
+
+theorem dictWitness_small : ∀ fuel, fuel < 40 → parseRef fuel dictWitnessToks = none := by decide +kernel
+
+theorem dictWitness_large (f : Nat) : parseRef (f + 40) dictWitnessToks = none := by
+  simp [parseRef, dictWitnessToks, parseTest, parseOrTest, parseAndTest, parseNotTest, parseCmp, parseBin,
+    parseBinLoop, parseFactor, parsePower, parseAtomExpr, parseAtomExpr2, parseAtom, parseBraceAtom, parseTrailers,
+    parseDictRest, binOpAt, unaryOpAt]
+
+/-- Witness 1: the tree of `{**(a or b)}` is well-formed, the model renders it as `{**a or b}`, and no
+    fuel makes the reference parser accept that. -/
+theorem dict_unpack_witness (p : Nat → Bool) :
+    WF dictWitness ∧ ∀ fuel, parseRef fuel (toks (display p dictWitness)) = none := by
+  refine ⟨by decide, fun fuel => ?_⟩
+  rw [dictWitness_toks]
+  by_cases h : fuel < 40
+  · exact dictWitness_small fuel h
+  · obtain ⟨f, rfl⟩ : ∃ f, fuel = f + 40 := ⟨fuel - 40, by omega⟩
+    exact dictWitness_large f
+
+/-- The full statement does not hold for the unparser as it is. -/
+theorem parse_unparse_fails : ¬ parse_unparse_full := by
+  intro h
+  obtain ⟨n, hn⟩ := h (fun _ => true) dictWitness (dict_unpack_witness (fun _ => true)).1
+  have := hn n (Nat.le_refl _)
+  rw [(dict_unpack_witness (fun _ => true)).2 n] at this
+  cases this
+
+/-- Witness 2 (text level, shared with C17): the constant `0.9999999999999999` (bits `3fefffffffffffff`)
+    is rendered as text that lexes back to `1.0` (bits `3ff0000000000000`). -/
+theorem float_witness :
+    lex (displayText (fun _ => true) (.const (.float 0x3FEFFFFFFFFFFFFF))) = some [.float 0x3FF0000000000000] := by
+  decide +kernel
+
+/-- `f'''{d['a']}"'''` -/
+def fstrWitness : Expr :=
+  .joinedStr [.formattedValue (.subscript (.name [100]) (.const (.str [97] false))) 0 none,
+              .const (.str [34] false)]
+
+/-- the model's rendering, one f-string token: `f'{d[\'a\']}"'` -/
+def fstrWitnessTok : Tok := .fstr 39 false false [123, 100, 91, 92, 39, 97, 92, 39, 93, 125, 34]
+
+theorem fstrWitness_toks (p : Nat → Bool) : toks (display p fstrWitness) = [fstrWitnessTok] := by
+  simp [display, fstrWitness, unparse, fstringBody, fstringElem, fstringSpec, formattedText, fstrTok, text, Tok.text,
+    toks, Prec.TEST, constTok, op, Op.text, ascii, convText, fstringStr, fstrWitnessTok,
+    PV.C16.strRepr, PV.C16.strReprPref, PV.C16.uWrite, PV.C16.uReprLayout, PV.C16.layoutGo, PV.C16.chooseQuote,
+    PV.C16.uEscapedCharLen, PV.C16.lengthAdd, PV.C16.isizeMax, PV.C16.uBody, PV.C16.uChanged, PV.C16.utf8LenList,
+    PV.C16.utf8Len, PV.C16.uBodySlow, PV.C16.uWriteChar, PV.C16.Quote.toChar]
+
+theorem fstrWitness_none : ∀ fuel, parseRef fuel [fstrWitnessTok] = none := by
+  have hField : ∀ f, fstrField f false 0 [100, 91, 92, 39, 97, 92, 39, 93, 125, 34] = none := by
+    intro f
+    cases f with
+    | zero => simp [fstrField]
+    | succ f =>
+      have : scanField 11 {} [100, 91, 92, 39, 97, 92, 39, 93, 125, 34] = none := by decide +kernel
+      simp [fstrField, this]
+  have hBody : ∀ f, fstrBody f false 0 [123, 100, 91, 92, 39, 97, 92, 39, 93, 125, 34] [] = none := by
+    intro f; cases f <;> simp [fstrBody, hField]
+  have hPieces : ∀ f, parseStringPieces f [fstrWitnessTok] = none := by
+    intro f; cases f <;> simp [parseStringPieces, fstrWitnessTok, hBody]
+  have hStr : ∀ f, parseStrings f [fstrWitnessTok] = none := by
+    intro f
+    cases f with
+    | zero => simp [parseStrings]
+    | succ f =>
+      have := hPieces f
+      simp [fstrWitnessTok] at this
+      simp [parseStrings, fstrWitnessTok, List.takeWhile, isStringTok, this]
+  have hAtom : ∀ f, parseAtom f [fstrWitnessTok] = none := by
+    intro f
+    cases f with
+    | zero => simp [parseAtom]
+    | succ f => have := hStr f; simp [fstrWitnessTok] at this; simp [parseAtom, fstrWitnessTok, this]
+  exact parseTest_none_of_atom_none hAtom (by simp [fstrWitnessTok]) (by simp [fstrWitnessTok])
+    (by simp [fstrWitnessTok]) (by simp [fstrWitnessTok, unaryOpAt])
+
+/-- Witness 3: the tree of `f'''{d['a']}"'''` is well-formed; the model escapes the whole body, putting
+    backslashes inside the replacement field; no fuel makes the reference parser accept the result. -/
+theorem fstring_witness (p : Nat → Bool) :
+    WF fstrWitness ∧ ∀ fuel, parseRef fuel (toks (display p fstrWitness)) = none := by
+  refine ⟨by decide, fun fuel => ?_⟩
+  rw [fstrWitness_toks]
+  exact fstrWitness_none fuel
 
 end PV.C11
